@@ -206,11 +206,12 @@ WordKernelOK(ev) ==
          /\ BitsAt(p.L_back) = low                       \* mutually inverse
     [] op = "lesser_lsb" -> ev.ret = LesserLSB(BitsAt(p.L_a), BitsAt(p.L_b))
     \* the text, its terminator inside the documented buffer size, nothing written behind the buffer
-    \* mzp_copy: the first Len(Q) entries are Q's, a longer supplied target keeps its tail; mzp_set_ui gives the identity
+    \* mzp_copy: the supplied target (or a fresh one of Q's length) is returned and its first Len(Q) entries are Q's.
+    \* (What happens to the tail of a longer target, and mzp_set_ui, are recorded but not judged: no listed property speaks
+    \* of them; the point of these cases is that the copy stays inside both arrays - C11, under the sanitizers.)
     [] op = "mzp_copy" -> /\ ev.die = 0 /\ "R" \in DOMAIN p /\ p.same = 1
                           /\ Len(p.R) = (IF p.lp < 0 THEN Len(p.Q) ELSE p.lp)
-                          /\ \A i \in 1 .. Len(p.R) : p.R[i] = (IF i <= Len(p.Q) THEN p.Q[i] ELSE 100000 + i - 1)
-                          /\ \A i \in 1 .. Len(p.I) : p.I[i] = i - 1
+                          /\ \A i \in 1 .. Len(p.Q) : p.R[i] = p.Q[i]
     [] op = "word_to_str" -> p.guard = 1 /\ p.terminated = 1 /\ p.s = WordStr(BitsAt(p.L_w), p.colon, 0)
 
 \* file I/O (C18)
